@@ -16,6 +16,7 @@ import Driver.C08
 import Driver.C11
 import Driver.C18
 import Driver.Gen
+import Driver.PyGen
 
 open Driver
 
@@ -36,7 +37,8 @@ def handlers : List (List String → Option String) := [
   Driver.C08.handle,
   Driver.C11.handle,
   Driver.C18.handle,
-  Driver.Gen.handle
+  Driver.Gen.handle,
+  Driver.PyGen.handle
 ]
 
 def dispatch (toks : List String) : String :=
